@@ -1,7 +1,7 @@
 """C31 — TPL grammar text parses with the documented precedence (tpl/parser/parser.go).
 
 A  Props/C31.v : C31_parse_print_expr, C31_parens_override, C31_parse_print_file, C31_total,
-                 C31_missing_factor_is_error, C31_no_error_wf
+                 C31_missing_factor_is_error, C31_no_error_wf, C31_parse_sound, C31_parse_normalises
 B  extracted parse_file  vs  tpl/parser.ParseFile on the token stream tpl/scanner delivers for:
    every expression of depth <= 2 over two leaves printed with minimal parentheses (exhaustive),
    3-ary sequences/choices over depth-1 operands, seeded random deeper trees and multi-rule files,
@@ -20,12 +20,14 @@ CLAIM = {
             "parseTermList, parseTerm, parseTerm2, parseFactor): every well-formed grammar tree of any size printed with "
             "the minimal parentheses implied by unary > ++ > % > sequence > | parses back to exactly that tree with no "
             "error (expression, parenthesised factor and whole-file forms); the parser terminates without panic on every "
-            "token stream; a tree with an empty sequence or nil operand is never returned without an error. The model is "
-            "tied to the code on every run by a differential run of the extracted model against ParseFile (tree and error "
-            "count) on exhaustive small trees, random trees and malformed streams.",
+            "token stream; a tree with an empty sequence or nil operand is never returned without an error; conversely any "
+            "error-free parse of any input keeps the tokens in order up to parentheses and equals the parse of the minimal "
+            "print of its result. The model is tied to the code on every run by a differential run of the extracted model "
+            "against ParseFile (tree and error presence) on exhaustive small trees, random trees and malformed streams.",
     "note": "Trusted: Coq kernel, extraction, harness. The parser is modelled over the token stream of the real tpl/scanner "
             "(the scanner is C32's subject); token positions, error message texts and conf.ParseRetProc are not modelled. "
-            "When the scanner itself reports errors only the tree is compared, not the error count.",
+            "The tree and the presence of errors are compared (not the number of error reports); when the scanner itself reports "
+            "errors only the tree is compared.",
 }
 
 # ---- trees: ("I", name) ("S", lit) ("C", lit) ("u", op, x) ("b", op, x, y) ("seq", [..]) ("alt", [..])
@@ -232,15 +234,21 @@ def run(ctx):
         ctx.broken("correspondence(c31:model-run)", "rc=%d %s" % (rc2, out2[-300:]))
         return
     mlines = out2.split("\n")[:len(cases)]
-    # projection: when the scanner reported errors (count printed as E) only the tree is compared
+    # projection: the property speaks about error PRESENCE, not the number of reports: counts are compared as 0 / +;
+    # when the scanner itself reported errors (count printed as E) only the tree is compared
+    def proj(line, force_e=False):
+        c = line.split(" ")[0]
+        rest = line[len(c):]
+        if force_e or c == "E":
+            return "E" + rest
+        return ("0" if c == "0" else "+" if c.isdigit() else c) + rest
     impl_p, model_p, nE = [], [], 0
     for r, m in zip(rows, mlines):
         x = r[1]
-        if x.startswith("E"):
-            nE += 1
-            m = "E" + m[len(m.split(" ")[0]):]
-        impl_p.append(x)
-        model_p.append(m)
+        e = x.startswith("E")
+        nE += e
+        impl_p.append(proj(x))
+        model_p.append(proj(m, e))
     keys = ["src:" + sha(t) for _, t, _ in cases]
     ctx.diff_lines("parse_file~ParseFile", ["%s %s" % (k, t.hex()) for k, (_, t, _) in zip(keys, cases)],
                    "\n".join(impl_p), "\n".join(model_p))
